@@ -12,7 +12,7 @@ Definition show_fres (r : fres) : string :=
   end.
 Definition check (rs : list rune) : string := digest (show_fres (format_res rs)).
 Definition full (rs : list rune) : string := show_fres (format_res rs).
-Eval vm_compute in ("<<<M1541>>>" ++ check (runes_of_ascii "options {
+Eval vm_compute in ("<<<M1597>>>" ++ check (runes_of_ascii "options {
     MetaDataX = true
 }
 
@@ -43,7 +43,7 @@ root packet u128 {
             crc @calculatedFrom(""// no comment""),
         },
         lengthOf `crlf
-                line`,
+        line`,
         // a // b
         // a // b
         T Pad `a\`,
@@ -54,7 +54,7 @@ root packet u128 {
 packet packetx {
     @lengthOf(Packet)
     repeat uint8x `line1
-        line2`,
+    line2`,
     @tag(0123456789)
     string BodyLength @calculatedFrom(""" ++ [28040; 24687]%N ++ runes_of_ascii """),// trailing space 
     zchar[42] MetaDataX,
@@ -81,7 +81,7 @@ packet packetx {
         x_y_z u128,
     },
     char[] msg_type @lengthOf(calculatedFrom) `line1
-        line2`,
+    line2`,
 }
 
 MetaData float {
@@ -90,1105 +90,988 @@ MetaData float {
     u128 crc,
     string stringy `" ++ [233]%N ++ runes_of_ascii "`,
 }")).
-Eval vm_compute in ("<<<M1828>>>" ++ check (runes_of_ascii "options
-    {StringPrefixLenType
-	= u16	;  ArrayPrefixLenType	= u16
-;
-}	packet  SampleBinary { 
-uint16 MsgType
+Eval vm_compute in ("<<<M1655>>>" ++ check (runes_of_ascii "root packet u {
+    char[007] x_y_z `two words`,
+    int16 u8x @calculatedFrom(""packet""),
+    float64 falsey @calculatedFrom(""\" ++ [233]%N ++ runes_of_ascii """) `u8 x,`,
+    trueish @calculatedFrom(""" ++ [233]%N ++ runes_of_ascii "t" ++ [233]%N ++ runes_of_ascii """) `tab	here`,
+    @tag(1)
+    repeat char[4294967296] u,
+    match i8i8 as o {
+        [""a\\""] : matchKey,
+        [
+            0123456789, ""x y"", 0, 00, ""a	b"",
+            ""{,}"", ""{,}"", 007
+        ] : u8x,
+        255 : u128,
+        [""" ++ [28040; 24687]%N ++ runes_of_ascii """, 0123456789, 65535, ""\n""] : _x,
+        7 : falsey,
+    },
+    @leftPad()
+    // " ++ [128512]%N ++ runes_of_ascii " emoji
+    charz @lengthOf(A),// `tick` ""quote"" 'q'
+}
 
-`" ++ [28040; 24687; 31867; 22411]%N ++ runes_of_ascii "`
-,
-u16 
-BodyLenght  @lengthOf( Body )
+root packet stringy {
+    repeat MetaDataX {
+        float32 T,
+        string x_y_z `a\`,
+        repeat _x zchar `u8 x,`,
+    },
+}
 
-`" ++ [28040; 24687; 20307; 38271; 24230]%N ++ runes_of_ascii "`, match MsgType
+packet Foo {
+    @lengthOf(roots)
+    calculatedFrom a1,
+    zchar[0123456789] _x,
+    // @lengthOf(
+    // trailing space 
+    match roots as MetaDataX {
+        /// triple
+        42 : _x,
+        3 : msg_type,
+        7 : a1,
+        """" : i8i8,
+        //x
+        [""" ++ [233]%N ++ runes_of_ascii "t" ++ [233]%N ++ runes_of_ascii """] : i8i8,
+        00 : leftPad,
+    },
+    @calculatedFrom("""")
+    char[00] Foo @lengthOf(uint8x),
+    f32 chars,
+}
 
-as
-Body
-	{
-	1
+packet metadata {
+}
 
-:Logon
-	,
-    2 :Logout
+MetaData i64_ {
+    lengthOf options1,
+    // @lengthOf(
+    //x
+    a1 A,
+    x Header,
+}")).
+Eval vm_compute in ("<<<M1928>>>" ++ check (runes_of_ascii "packet
 
-,
+rootA
+{
+    match
+	zchar
+    as 
+	// " ++ [128512]%N ++ runes_of_ascii " emoji
+int{
+	[
 
-    3
-    :  Heartbeat
-, 4:	RiskControlRequest ,5
-:  RiskControlResponse
-    , } ,
-    @calculatedFrom( ""CRC32""  ) u32 Ckecksum
-`" ++ [26657; 39564; 21644]%N ++ runes_of_ascii "` , 
-} packet Logon
-{	@leftPad( 
-'0' ) char[ 10
+    ""it's""
+
+    ,
+""1""
 
     ] 
-UserName
+:// c
+    	tag
+    ,
 
-    `" ++ [29992; 25143; 21517]%N ++ runes_of_ascii "` , string Password `" ++ [23494; 30721]%N ++ runes_of_ascii "`
-,  uint64  ClientId `" ++ [23458; 25143; 31471]%N ++ runes_of_ascii "ID` ,
-u16
-    HeartbeatInterval
+}  ,
 
-`" ++ [24515; 36339; 38388; 38548]%N ++ runes_of_ascii "`,
-} packet Logout
-{@rightPad
-    (
-	'0')
-	char[
-10 ]  UserName `" ++ [29992; 25143; 21517]%N ++ runes_of_ascii "`
-,
-
-    uint64	ClientId `" ++ [23458; 25143; 31471]%N ++ runes_of_ascii "ID`
-
-,
-	} packet
-Heartbeat  { } packet
-RiskControlRequest
-{ string
-UniqueOrderId`" ++ [21807; 19968; 35746; 21333; 21495]%N ++ runes_of_ascii "`
-,char[
-16	]ClOrdID
-`" ++ [23458; 25143; 35746; 21333; 21495]%N ++ runes_of_ascii "`
-,char[	3
-    ]MarketID	`" ++ [24066; 22330]%N ++ runes_of_ascii "id`	,
-	char[
-	12	]
-SecurityID
-
-    `" ++ [35777; 21048; 20195; 30721]%N ++ runes_of_ascii "`	,
-	char
-Side `" ++ [20080; 21334; 26041; 21521]%N ++ runes_of_ascii "`
-
-,
     char
-    OrderType	`" ++ [35746; 21333; 31867; 22411]%N ++ runes_of_ascii "`,u64	Price
 
-    `" ++ [20215; 26684]%N ++ runes_of_ascii "`  ,u32
-Qty`" ++ [25968; 37327]%N ++ runes_of_ascii "` ,
-repeat  string ExtraInfo`" ++ [38468; 21152; 20449; 24687]%N ++ runes_of_ascii "` 
-,	repeat SubOrder
+Packet	@lengthOf(
+body
+	)
+,
+	metadata
+    @lengthOf( 
+packetx
 
-{char[ 16
-	] ClOrdID
-`" ++ [23376; 35746; 21333; 21495]%N ++ runes_of_ascii "` ,	u64 Price `" ++ [23376; 35746; 21333; 20215; 26684]%N ++ runes_of_ascii "`
-,	u32
-Qty
+    )  ,
 
-`" ++ [23376; 35746; 21333; 25968; 37327]%N ++ runes_of_ascii "`,
-    } 
-,	}
-packet	RiskControlResponse
-	{	string
-UniqueOrderId
+@calculatedFrom(
+    """ ++ [128512]%N ++ runes_of_ascii """ ) match 
+repeatCount
+	as  f32a
+	{""" ++ [28040; 24687]%N ++ runes_of_ascii """
 
-    `" ++ [21807; 19968; 35746; 21333; 21495]%N ++ runes_of_ascii "`, i32
-    Status`" ++ [29366; 24577]%N ++ runes_of_ascii "`
-	,
-	string
+    :	chars ,
 
-    Msg 
-`" ++ [32467; 26524; 20449; 24687]%N ++ runes_of_ascii "`
+    } ,@lengthOf(string_
+) char[
+
+    0 
+	    //
+]
+	len @calculatedFrom(""abc""
+)
+,
+    // `tick` ""quote"" 'q'
+
+  u8
+    uint8x
+@lengthOf(
+roots)`say ""hi""`	,int
+
+@calculatedFrom(
+
+""a\""b""
+
+    )
+    ,
+
+    match 
+msg_type  as
+
+    i8i8
+    {  // c
+	""\" ++ [233]%N ++ runes_of_ascii """
+
+    // " ++ [27880; 37322]%N ++ runes_of_ascii "
+
+// packet A { u8 x, }
+	  :
+Header, 1	: zchar
+,[""\n""
+    ]	: string_
+""\n""	:i8i8
+	0123456789
+    : Logon [
+00
 
     ,
 
-repeat
-Detail
+007
+	,
+
+    ""1""
+
+    , 
+      //	t
+  	""it's""  ,
+
+    ""// no comment"" 
+, 0
+, ""a\\"",// packet A { u8 x, }
+  007 ]  :
+    BodyLength
+
+}	,  match  rootA
+    as // c
+
+chars {
+    7:
+// @lengthOf(
+	Header}
+
+    ,
+A Foo 
+`tab	here` ,} ")).
+Eval vm_compute in ("<<<M188>>>" ++ check (runes_of_ascii "// packet A { u8 x, }
+root
+    packet
+    leftPad { @calculatedFrom(
+    //x
+    ""`tick`"" )	@rightPad( )
+    // " ++ [128512]%N ++ runes_of_ascii " emoji
+    string_
+// `tick` ""quote"" 'q'
+// a // b
+@lengthOf(	tag
+    ) `a\` ,i64 T
+    `" ++ [233]%N ++ runes_of_ascii "`,//	t
+}
+packet
+Pad// @lengthOf(
+{ @lengthOf(	float ) char[] x@calculatedFrom(
+    ""a\""b"")
+    , // trailing space 
+@tag(
+    0// " ++ [128512]%N ++ runes_of_ascii " emoji
+) // " ++ [27880; 37322]%N ++ runes_of_ascii "
+repeatCount// packet A { u8 x, }
+,
+repeat rootA{
+_x
+    ,zchar[3 ]roots
+    /// triple
+    `crlf
+line` ,
+}
+,
+/// triple
+// a // b
+match
+    metadata as BodyLength
+    { [
+    // c
+    10 , 10 , ""a\""b"", """"	, ""\n""
+,  ""a\\"" , 4294967296]  :
+    u
+, }
+, repeat	i64_ Packet `" ++ [28040; 24687; 31867; 22411]%N ++ runes_of_ascii "`
+,@tag( // packet A { u8 x, }
+65535)
+    char[] float`it's`
+, char[7 ]
+    x @calculatedFrom( ""{,}"" ),
+    }MetaData leftPad// a // b
+{ body rootA
+`crlf
+line`
+, int64
+msg_type
+`doc`
+    , // @lengthOf(
+}
+")).
+Eval vm_compute in ("<<<M1358>>>" ++ check (runes_of_ascii "options
+	{
+
+    StringPrefixLenType = u16 ;  ArrayPrefixLenType =  u32
+;FixedStringPadFromLeft =true
+    ;	FixedStringPadChar=
+    '0';}
+    packet
+
+Cancel
+	{ }  packet Party
+
+    {
+
+    }
+
+    packet
+Logon
+
+    {
+
+}
+	packet
+    Ack{
+} 
+packet
+Logout	{repeat InSym87  { InClordid94 
+{
+
+    string
+    clOrdID
 ,
 
 } 
-packet
+,string Px
+    , i16
 
-    Detail {
-    string
-RuleName`" ++ [35268; 21017; 21517; 31216]%N ++ runes_of_ascii "`
-, 
-u16
-	Code
+Qty, repeat InCount71 { repeat
+	Cancel  , uint16
 
-    `" ++ [21407; 22240; 20195; 30721]%N ++ runes_of_ascii "` , }
-")).
-Eval vm_compute in ("<<<M359>>>" ++ check (runes_of_ascii "root	packet // @lengthOf(
-repeatCount {
-    @lengthOf(u8x
-) @calculatedFrom(""1"" ) @tag( 007 ) repeat zchar[
-42 ] Header
-    `" ++ [28040; 24687; 31867; 22411]%N ++ runes_of_ascii "` , match options1 as asx
-{ 255
-    // `tick` ""quote"" 'q'
-    :
-    roots , }, // a // b
-Header
-    @lengthOf(
-    // a // b
-    options1	) `` , Header //	t
-@lengthOf(
-    len )`{ , }`
-, o matchKey `u8 x,` ,} packet packetx {zchar[
-255
-]
-crc
-    , }
-    packet
-    Logon {
-    body { float { repeat Logon  trueish ,  } , } ,	@calculatedFrom(
-    // `tick` ""quote"" 'q'
-    ""`tick`"" ) repeat char[
-    0] f32a
-,match body
-    as
-    float {[65535
-, """ ++ [28040; 24687]%N ++ runes_of_ascii """
-    ] :
-calculatedFrom ,}
-, u32 float@calculatedFrom(
-    """ ++ [233]%N ++ runes_of_ascii "t" ++ [233]%N ++ runes_of_ascii """ // @lengthOf(
-)
-, string body @lengthOf( len
-    )`
-` //
-, u8x
-@calculatedFrom( ""a\""b"")
-    //	t
-    , //	t
-float64 options1@calculatedFrom(""" ++ [128512]%N ++ runes_of_ascii """ )`it's`
+Tail, char[ 2
+    ] x 
+,
+
+    repeat
+    string	Ref, 
+}
+	, Cancel
+	, 
+}
+
     ,
-//x
-// trailing space 
-match crc as chars
-    {
-3
-: options1 // @lengthOf(
-, [ 10 ] :_x  [ ""{,}""
-] :options1
-,[ ""CRC32"", ""a\\""  ,
-""a\\"" , ""packet"", 7
-    // `tick` ""quote"" 'q'
+
+    }
+
+root
+
+packet 
+Order { repeat
+	string
+tag7	,
+@leftPad
+(' '	) char[
+
+    3 ]	Px
+, u8
+Qty  , 
+match Qty as
+    Body
+	{ 
+[
+28 , 62
+
     ]
 :
-As
-    } , i16 msg_type , }")).
-Eval vm_compute in ("<<<M1309>>>" ++ check (runes_of_ascii "// top
-packet // c0a
-  // c0b
-A { // c2
-u8 // c3a
-  // c3b
-a , // c5
-} // c6a
-  // c6b
-packet // c7a
-  // c7b
-B {
-    // c9
-u16 b // c11
-, } // c13a
-  // c13b
-packet // c14
-C
-    // c15
-{
-    // c16
-u32
-    // c17
-c // c18
-, // c19a
-  // c19b
-}
-    // c20
-root packet // c22a
-  // c22b
-M // c23
-{ u16 Kc
-    // c26
-,
-    // c27
-u16 // c28a
-  // c28b
-Kb , // c30
-u16 Ka
-    // c32
-, match // c34a
-  // c34b
-Kc // c35
-as X
-    // c37
-{
-    // c38
-9 // c39
-:
-    // c40
-A
-    // c41
-, 10 :
-    // c44
-B
-    // c45
-,
-    // c46
-} , match
-    // c49
-Kb // c50
-as // c51a
-  // c51b
-Y // c52
-{ 2 // c54a
-  // c54b
-:
-    // c55
-C , // c57
-1 // c58
-: A , // c61a
-  // c61b
-} // c62
-, // c63a
-  // c63b
-match
-    // c64
-Ka as // c66
-Z // c67
-{
-    // c68
-1 // c69a
-  // c69b
-: B // c71a
-  // c71b
-, // c72
-} // c73a
-  // c73b
-, // c74
-A // c75a
-  // c75b
-, // c76
-B
-    // c77
-,
-    // c78
-C , // c80
-} ")).
-Eval vm_compute in ("<<<M280>>>" ++ check (runes_of_ascii "packet	crc{@lengthOf( stringy// a // b
-) @leftPad (
-'0'
-    ) @calculatedFrom(
-""packet"" )
-repeat char[
-    // c
-    3]  i64_ // a // b
-, match
-    options1	as o { 255 :msg_type
-,
-    ""\n"": MetaDataX , 42: msg_type """ ++ [128512]%N ++ runes_of_ascii """
-    : lengthOf,""// no comment"" :falsey , }
-/// triple
-// trailing space 
-, @leftPad( )
-    @lengthOf( A
-    ) @calculatedFrom( ""x y"" ) uint32// a // b
-charz `doc`, len ,@calculatedFrom( ""// no comment"" ) match _x
-    //x
-    as i64_	{ 65535
+
+Logon ,  148
     :
-    // @lengthOf(
-    u8x , } ,
-char[]
-    a1 // @lengthOf(
-, Foo { u8x{ char[]
-Logon
-    `// not a comment`	,}, match metadata as u128 { // trailing space 
-42 : u8x
-, 65535 : f32a
-    } //x
-, asx// " ++ [128512]%N ++ runes_of_ascii " emoji
-@lengthOf( matchKey  ) ,} , roots @calculatedFrom( // packet A { u8 x, }
-""a\""b"" )
-,	zchar[
-7] int	, repeat pack	trueish ,
-    }
-")).
-Eval vm_compute in ("<<<M1516>>>" ++ check (runes_of_ascii "
+	Ack ,88
 
-  packet
-crc  { @lengthOf(Header) 
-repeat
-
-roots  
-  // @lengthOf(
-	  `a\`  ,@lengthOf(  tag  ) match
-	x 
-as
-	string_ {
-[
-
-""a\\""
-
-, ""packet""
-]
-:Header	""// no comment"" 
-  /// triple
-: Logon,
-
-    7: 
-falsey	, 7
-
-:
-metadata [	7 ,
-	00
-]	:
-    // `tick` ""quote"" 'q'
-    repeatCount
-
-    3
-:
-
-    u
-
-    , }
-, 
-        //	t
-	@lengthOf(
-    u128 
-
-    //
-
-// " ++ [27880; 37322]%N ++ runes_of_ascii "
-
-  )
-@rightPad('\x00'// c
-		)  char[] 
-int,
-int16 Packet	@lengthOf(
-	string_
-
-    )
-,  trueish
-{repeat
-	crc  {  zchar calculatedFrom, },
-	}
-	, 
-
-// @lengthOf(
-	//x
-
-@rightPad (
-)
-
-repeat
-	_x	pack// " ++ [27880; 37322]%N ++ runes_of_ascii "
-	  , @lengthOf( 
-    // c
-// trailing space 
-  chars )repeat  string_ { repeat
-
-    uint8x
-`// not a comment`
+    :Party
 	,
-    } 
-, }")).
-Eval vm_compute in ("<<<M1238>>>" ++ check (runes_of_ascii "// top
-options
-    // c0
-{
-    // c1
-zchar
-    // c2
-=
-    // c3
-true
-    // c4
-;
-    // c5
-Pad
-    // c6
-=
-    // c7
-char[
-    // c8
-00
-    // c9
-]
-    // c10
-a1
-    // c11
-=
-    // c12
-uint32
-    // c13
-BodyLength
-    // c14
-=
-    // c15
-true
-    // c16
-;
-    // c17
-}
-    // c18
-root
-    // c19
-packet
-    // c20
-T
-    // c21
-{
-    // c22
-@lengthOf(
-    // c23
-repeatCount
-    // c24
-)
-    // c25
-@tag(
-    // c26
-1
-    // c27
-)
-    // c28
-@calculatedFrom(
-    // c29
-""a	b""
-    // c30
-)
-    // c31
-string
-    // c32
-stringy
-    // c33
-@calculatedFrom(
-    // c34
-""\n""
-    // c35
-)
-    // c36
-`u8 x,`
-    // c37
-,
-    // c38
-}
-    // c39
-")).
-Eval vm_compute in ("<<<M1312>>>" ++ check (runes_of_ascii "// top
-options // c0a
-  // c0b
-{ // c1a
-  // c1b
-FixedStringPadChar = // c3
-'0' ; } packet
-    // c7
-Q // c8
-{ // c9a
-  // c9b
-zchar[ // c10a
-  // c10b
-4 // c11
-] // c12
-z , // c14
-@rightPad ( // c16
-'\x00' ) // c18a
-  // c18b
-char[ 3 // c20a
-  // c20b
-]
-    // c21
-n ,
-    // c23
-char[
-    // c24
-5
-    // c25
-] // c26
-d // c27
-, } // c29a
-  // c29b
-root
-    // c30
-packet R
-    // c32
-{ // c33
-Q , // c35a
-  // c35b
-zchar[ 8 // c37
-] // c38
-top , // c40a
-  // c40b
-repeat
-    // c41
-zchar[
-    // c42
-2
-    // c43
-] // c44a
-  // c44b
-zs
-    // c45
-, // c46a
-  // c46b
-} // c47
-")).
-Eval vm_compute in ("<<<M1364>>>" ++ check (runes_of_ascii "options {
-    StringPrefixLenType = u8;
-    ArrayPrefixLenType = u8;
-    FixedStringPadFromLeft = false;
-    FixedStringPadChar = ' ';
-}
-packet Ack {
-    char[] tag7,
-}
-packet Reject {
-    InSym61 {
-        repeat Ack,
-        zchar[4] f1,
-    },
-}
-packet Logout {
-    char[4] clOrdID,
-}
-root packet Cancel {
-    @leftPad(' ') char[10] price,
-    u8 x,
-    u32 venue @lengthOf(Body),
-    match x as Body {
-        [92, 175] : Logout,
-        26 : Reject,
-        144 : Ack,
-    },
-    u16 count @calculatedFrom(""CRC32""),
-}
-")).
-Eval vm_compute in ("<<<M193>>>" ++ check (runes_of_ascii "
-root packet lengthOf{
-    char[ 3 ] Pad ,	@rightPad
-    (  '0'
-)
-    crc `doc` ,i32 //x
-uint8x
-,	zchar { match Logon  as int { [ 0 , """ ++ [233]%N ++ runes_of_ascii "t" ++ [233]%N ++ runes_of_ascii """] :o , ""// no comment"" :len ,
-} , asx
-{
-    //x
-    char[	10 ]
-u128 // a // b
-@lengthOf(  x_y_z)`say ""hi""`, }
-/// triple
-//
-, char[
-1 ] A, u// c
-chars
-    `` , }, repeat matchKey
-{ //x
-string trueish@calculatedFrom(
-    ""a	b""  )  , repeat
-    // packet A { u8 x, }
-    i8 msg_type `it's` ,	} , /// triple
-}
-packet float { }")).
-Eval vm_compute in ("<<<M1192>>>" ++ check (runes_of_ascii "// top
-MetaData
-    // c0
-uint8x
-    // c1
-{
-    // c2
-char[]
-    // c3
-f32a
-    // c4
-`// not a comment`
-    // c5
-,
-    // c6
-float32
-    // c7
-roots
-    // c8
-,
-    // c9
-char[
-    // c10
-7
-    // c11
-]
-    // c12
-u8x
-    // c13
-,
-    // c14
-zchar[
-    // c15
-10
-    // c16
-]
-    // c17
-f32a
-    // c18
-,
-    // c19
-u64
-    // c20
-pack
-    // c21
-,
-    // c22
+184 :
+Cancel	,
+	},
 u16
-    // c23
-pack
-    // c24
-,
-    // c25
-}
-    // c26
-")).
-Eval vm_compute in ("<<<M292>>>" ++ check (runes_of_ascii "packet/// triple
-matchKey { float32 float,@calculatedFrom(""a\\""// " ++ [27880; 37322]%N ++ runes_of_ascii "
-) @rightPad
-( '\x00' )i16 tag  @calculatedFrom(""abc"" ) ,
-repeat zchar[255
-] pack
-    , @lengthOf( Z9_ ) tag , } // trailing space 
-root
-packet rootA { repeat metadata { Logon , }, @tag( 10)
-@lengthOf( A )
-@tag( 007)
-u32
-    options1, match float as u {0123456789 : u8x ,} ,	}// " ++ [27880; 37322]%N ++ runes_of_ascii "
-root packet lengthOf { }
-")).
-Eval vm_compute in ("<<<M178>>>" ++ check (runes_of_ascii "packet // c
-As
-{@tag( 42
-    )
-    repeat Logon	uint8x
-// " ++ [128512]%N ++ runes_of_ascii " emoji
-//
-``, repeat int32
-    x_y_z ,char[7 // trailing space 
-]	pack , repeat string crc
-/// triple
-// c
-`// not a comment`
-, @calculatedFrom(
-    ""`tick`""
-    ) @tag( 1 )match
-    // @lengthOf(
-    chars as
-MetaDataX { 4294967296 : // @lengthOf(
-T ,
-} /// triple
-,
-}
-")).
-Eval vm_compute in ("<<<M205>>>" ++ check (runes_of_ascii "  root packet
-    chars{ string T `say ""hi""`
-, @tag(
-    1  ) body { repeat o { f64 Packet @calculatedFrom( ""a\\"") ,  } , }	,
-} packet pack
-// @lengthOf(
-// a // b
-{
-@tag( 4294967296 // `tick` ""quote"" 'q'
-) repeat char[]
-    Logon
-    // trailing space 
-    , repeat
-BodyLength len ,
-    // c
-    }")).
-Eval vm_compute in ("<<<M1322>>>" ++ check (runes_of_ascii "packet
 
-    P1
-    { u8
-
-    a 
-,
-} packet
-
-P2  { 
-P1
-	,
-    }  packet	P3 {	P2  ,
-
-P1	,}
-	packet  P4
-
-{ 
-repeat  P3
-	,
-
-P2,
-
-}root
-
-    packet
-    P5 {
-P4,
-
-    P3
-
-,
-
-    P1 , u8	K
-    ,match
-    K as Body {
-	4:P4 ,
-3
-
-: P3 ,
-	2 : P2 , 1
-: P1	,
-}	,  }")).
-Eval vm_compute in ("<<<M190>>>" ++ check (runes_of_ascii "packet // @lengthOf(
-f32a
-    {	@rightPad (
-    '0' ) @lengthOf( BodyLength ) uint8 Foo ``,
-    //x
-    char[]
-    options1 @calculatedFrom(
-    ""it's"" ) ,@tag(255/// triple
-) uint64
-    Header @calculatedFrom( ""abc""
-) `
-`
+    Note
+@calculatedFrom( 
+""CRC32""
+)
 ,}
 
 ")).
-Eval vm_compute in ("<<<M1621>>>" ++ check (runes_of_ascii "
+Eval vm_compute in ("<<<M1445>>>" ++ check (runes_of_ascii "
+options {	leftPad 	 // packet A { u8 x, }
+    = 0; 
 
-  options
-{As
-=	true
-    MetaDataX
-    =
-    true
-}
+//
+	Logon 
+= char  // `tick` ""quote"" 'q'
+i64_	=
+'\x00'  ;
+    }
+options
+{ crc 
+=i32
+	; matchKey
+=
+    255 leftPad	=	' ' ; 
+metadata	=
 
-packet A
+42 // trailing space 
+;
+	packetx
+= 10
+    } root
+packet  //
+	A
 {
-repeat
-	calculatedFrom
-`say ""hi""` ,
+@calculatedFrom(
+""x y""// c
+  )  /// triple
 
-    }	MetaData crc
+  zchar[00
+    ]
 
-    {
+f32a
 
-u
-crc , uint32
+,
+
+@tag(
+255 
+)
+    zchar[ 0123456789
+
+    ]
+	a1
+	@lengthOf( As )	`" ++ [28040; 24687; 31867; 22411]%N ++ runes_of_ascii "` 
+      /// triple
+  ,
+int16
 
 body
 
-    ,
-    i16  stringy
+, 	 // `tick` ""quote"" 'q'
+uint64	x	@calculatedFrom(""1""
+//	t
+    // " ++ [128512]%N ++ runes_of_ascii " emoji
+  ) // packet A { u8 x, }
+  `line1
+line2`  ,  @lengthOf(
+	Logon) 
+char[ 
+0 // packet A { u8 x, }
+]  float @calculatedFrom(
+	""abc""),}
+MetaData
+	u128
 
-    `u8 x,`,}
-")).
-Eval vm_compute in ("<<<M9>>>" ++ check (runes_of_ascii "
-options {body = """ ++ [28040; 24687]%N ++ runes_of_ascii """ }	packet matchKey
-{string_
-// packet A { u8 x, }
-// a // b
-@lengthOf( f32a) ,	int32 int @lengthOf(u128 )	, tag x_y_z ,}packet BodyLength /// triple
-{ }")).
-Eval vm_compute in ("<<<M145>>>" ++ check (runes_of_ascii "MetaData //x
-Packet
-/// triple
+    {
+}")).
+Eval vm_compute in ("<<<M227>>>" ++ check (runes_of_ascii "packet	crc
+    { @lengthOf(Header )	repeat roots
+    // @lengthOf(
+    `a\` ,
+@lengthOf( tag ) match x as string_{ [ ""a\\"" , ""packet""
+] : Header""// no comment""
+    /// triple
+    :
+Logon , 7:
+falsey ,7  : metadata [ 7  , 00] :
+    // `tick` ""quote"" 'q'
+    repeatCount 3 : u ,
+},
+    //	t
+    @lengthOf( u128
+//
 // " ++ [27880; 37322]%N ++ runes_of_ascii "
-{	u
-/// triple
+) @rightPad
+(
+'\x00' // c
+)
+char[] int ,int16 Packet @lengthOf(  string_
+    ) , trueish{ repeat
+crc {zchar
+calculatedFrom , } ,
+} ,
+// @lengthOf(
+//x
+@rightPad
+( ) repeat
+    _x pack // " ++ [27880; 37322]%N ++ runes_of_ascii "
+, @lengthOf(
 // c
-lengthOf `say ""hi""`
-    , } MetaData metadata {
-    crc chars `crlf
-line` , asx f32a /// triple
-,
+// trailing space 
+chars)repeat
+    string_ {repeat
+    uint8x`// not a comment`,}
+, }")).
+Eval vm_compute in ("<<<M1591>>>" ++ check (runes_of_ascii "packet int {
+    // @lengthOf(
+    repeat string BodyLength `a\`,
 }
 
-")).
-Eval vm_compute in ("<<<M478>>>" ++ check (runes_of_ascii "packet uint8x
-{ match pack
-    as msg_type	{
-    0123456789 :	float
-}
+packet repeatCount {
+    @lengthOf(x_y_z)
+    crc,
+    match Packet as Z9_ {
+        ""// no comment"" : MetaDataX,
+        //	t
+        // a // b
+        [00, 7] : chars,
+        ""CRC32"" : zchar,
+        42 : stringy,
+        [""a\""b"", ""1""] : u,
+    },
+    @rightPad(' ')
+    @lengthOf(i64_)
+    repeat f64 x `two words`,
+    @calculatedFrom(""`tick`"")
+    int64 falsey @lengthOf(u128),
+    charz {
+        //x
+        char[] T `a\`,
+    },
+    @lengthOf(u8x)
+    string_,
+    repeat x,
+}")).
+Eval vm_compute in ("<<<M1943>>>" ++ check (runes_of_ascii "options
+
+{float
+= char[]
+	} // packet A { u8 x, }
+
+	root 
+packet
+
+Logon
+    { @tag( 
+1
+	) 	 // a // b
+	  @calculatedFrom(
+
+""packet"" 
+  // a // b
+// " ++ [128512]%N ++ runes_of_ascii " emoji
+
+) 
+zchar[3 
+]
+
+// c
+	//x
+Z9_,
+
+@lengthOf(charz  ) @calculatedFrom( ""1"" )	match
+    roots 
+as
+
+    int 
+{  ""a	b""
+:
+MetaDataX
 ,
-} packet //	t
-a1
-    { char[ options {packetx
-    = '\x00'	; u128= ""a	b""  ; }
-")).
-Eval vm_compute in ("<<<M506>>>" ++ check (runes_of_ascii "packet uint8x
-{ match pack
-    as msg_type	{
-    0123456789 :	float
+    } ,@calculatedFrom(  ""a\""b"" )match
+asx 
+as lengthOf { 
+""" ++ [128512]%N ++ runes_of_ascii """ 
+: _x ,[
+255
+    ]:
+BodyLength,
+
+    3:	u8x , 0123456789
+: T
+
+} , 
+len
+	@lengthOf( leftPad
+	)
+
+`u8 x,`
+    ,
+    }// @lengthOf(")).
+Eval vm_compute in ("<<<M1677>>>" ++ check (runes_of_ascii "//	t
+packet u8x {
+    u8x {
+        body @calculatedFrom(""`tick`"") `say ""hi""`,
+        match a1 as asx {
+            //	t
+            0 : asx,
+        },
+    },
+    @rightPad()
+    match Logon as x {
+        [00, ""// no comment"", ""a\\"", 0123456789, 4294967296] : crc,
+        00 : options1,
+        // " ++ [27880; 37322]%N ++ runes_of_ascii "
+        42 : i8i8,
+        0 : o,
+        0123456789 : body,
+    },
+    @tag(7)
+    float @lengthOf(stringy) `" ++ [233]%N ++ runes_of_ascii "`,
+    u @lengthOf(msg_type),
+}")).
+Eval vm_compute in ("<<<M1931>>>" ++ check (runes_of_ascii "options {
 }
-,
-} packet //	t
-a1
-    { } options {packetx
-    = '\x00'	; ; u128= ""a	b""  ; }
-")).
-Eval vm_compute in ("<<<M422>>>" ++ check (runes_of_ascii "packet uint8x
-{ match pack
-    as {	msg_type
-    0123456789 :	float
+
+packet charz {
+    @rightPad(' ')
+    @calculatedFrom(""a\\"")
+    repeat int crc `two words`,
+    string stringy @calculatedFrom(""a	b"") `// not a comment`,//
+    char i8i8,
 }
-,
-} packet //	t
-a1
-    { } options {packetx
-    = '\x00'	; u128= ""a	b""  ; }
-")).
-Eval vm_compute in ("<<<M435>>>" ++ check (runes_of_ascii "packet uint8x
-{ match pack
-    as msg_type	{
-    0123456789 	float
+
+MetaData crc {
+    // `tick` ""quote"" 'q'
+    crc i64_ `{ , }`,
+    // `tick` ""quote"" 'q'
+    i32 u128,// packet A { u8 x, }
+    BodyLength Header,
+    char[0123456789] Packet `u8 x,`,
+    uint8 repeatCount,//	t
+}")).
+Eval vm_compute in ("<<<M1947>>>" ++ check (runes_of_ascii "// @lengthOf(
+MetaData leftPad {
+    string options1 `say ""hi""`,
+    //x
+    int16 metadata `" ++ [233]%N ++ runes_of_ascii "`,
+    f32 i64_,
 }
-,
-} packet //	t
-a1
-    { } options {packetx
-    = '\x00'	; u128= ""a	b""  ; }
-")).
-Eval vm_compute in ("<<<M1886>>>" ++ check (runes_of_ascii "root packet packetx {
-    char[1] chars @calculatedFrom(""packet"") `say ""hi""`,
+
+packet trueish {
+    // c
+    MetaDataX roots,
+    _x a1,
+    match packetx as charz {
+        0 : f32a,
+    },
+    repeat body Logon,
 }
 
 options {
-    asx = 65535
-    u = float64
-    repeatCount = ""\" ++ [233]%N ++ runes_of_ascii """
+    repeatCount = int8
+    charz = char[];
+    msg_type = ""it's""
+    u = 007
+    Z9_ = uint32
+    //
 }")).
-Eval vm_compute in ("<<<M657>>>" ++ check (runes_of_ascii "// @lengthOf(
+Eval vm_compute in ("<<<M1484>>>" ++ check (runes_of_ascii "packet int {
+    T {
+        repeat _x,
+    },
+    i64_ _x `
+        `,
+    @calculatedFrom(""x y"")
+    u32 A,
+    match a1 as i8i8 {
+        [""1"", 4294967296] : a1,
+        """" : a1,
+        007 : a1,
+        [""CRC32""] : Header,
+    },
+    int64 As,
+    int8 a1,//
+    char[] float `tab	here`,
+    repeat zchar[1] u8x,
+}/// triple")).
+Eval vm_compute in ("<<<M1379>>>" ++ check (runes_of_ascii "options {
+    LittleEndian = true;
+}
+packet Logon {
+    u8 x,
+}
+packet Logout {
+    u16 reason,
+}
+root packet Frame {
+    u8 Kind,
+    u8 Kind2,
+    match Kind as Body {
+        1 : Logon,
+        [2, 3, 4] : Logout,
+        100 : Logon,
+    },
+    match Kind2 as Trailer {
+        0 : Logout,
+    },
+}
+")).
+Eval vm_compute in ("<<<M1876>>>" ++ check (runes_of_ascii "  packet _x
+    {
+    repeat
+
+    char[]
+	matchKey 	 // " ++ [128512]%N ++ runes_of_ascii " emoji
+  , @leftPad (  )  x_y_z	/// triple
+
+T
+
+    , 
+Pad
+{
+zchar[
+
+1]  rootA
+
+    `tab	here` , }
+    , Foo
+    @calculatedFrom(
+"""" 
+
+// trailing space 
+  	) ,	} packet
+    MetaDataX { float64	body
+,}")).
+Eval vm_compute in ("<<<M1912>>>" ++ check (runes_of_ascii "// top
+MetaData leftPad {
+    // c2
+    chars MetaDataX,// c5a
+    // c5b
+}
+
+packet repeatCount {
+    char[255] uint8x `" ++ [233]%N ++ runes_of_ascii "`,
+    // c15
+}// c16a
+
+// c16b
+MetaData pack {
+    // c19a
+    // c19b
+    As Foo,
+    // c22
+}// c23a
+// c23b")).
+Eval vm_compute in ("<<<M318>>>" ++ check (runes_of_ascii "options {Z9_ =// trailing space 
+""packet"" ;float = false
+; A =
+' ' }
+    // c
+    MetaData pack
+{ zchar[
+3] leftPad
+,zchar
+    falsey `it's` , char[] repeatCount ,char[ 65535 // " ++ [128512]%N ++ runes_of_ascii " emoji
+] Z9_, }
+//	t
+")).
+Eval vm_compute in ("<<<M1489>>>" ++ check (runes_of_ascii "packet len {
+}
+
+options {
+    Z9_ = 4294967296;
+    _x = 0
+    f32a = zchar[42];
+}
+
+root packet BodyLength {
+}
+
+options {
+    string_ = u32;
+    charz = string;
+}
+
+packet len {
+}")).
+Eval vm_compute in ("<<<M1940>>>" ++ check (runes_of_ascii "packet A {
+    match k as n {
+        [
+            1, 22, ""c c"", 4, 5,
+            ""f"", 7, 8, ""i"", 10,
+            11, ""l""
+        ] : B,
+        2 : C,
+    },
+}")).
+Eval vm_compute in ("<<<M411>>>" ++ check (runes_of_ascii "packet uint8x
+{ match pack pack
+    as msg_type	{
+    0123456789 :	float
+}
+,
+} packet //	t
+a1
+    { } options {packetx
+    = '\x00'	; u128= ""a	b""  ; }
+")).
+Eval vm_compute in ("<<<M476>>>" ++ check (runes_of_ascii "packet uint8x
+{ match pack
+    as msg_type	{
+    0123456789 :	float
+}
+,
+} packet //	t
+a1
+    { } } options {packetx
+    = '\x00'	; u128= ""a	b""  ; }
+")).
+Eval vm_compute in ("<<<M402>>>" ++ check (runes_of_ascii "packet uint8x
+match { pack
+    as msg_type	{
+    0123456789 :	float
+}
+,
+} packet //	t
+a1
+    { } options {packetx
+    = '\x00'	; u128= ""a	b""  ; }
+")).
+Eval vm_compute in ("<<<M400>>>" ++ check (runes_of_ascii "packet uint8x
+ match pack
+    as msg_type	{
+    0123456789 :	float
+}
+,
+} packet //	t
+a1
+    { } options {packetx
+    = '\x00'	; u128= ""a	b""  ; }
+")).
+Eval vm_compute in ("<<<M698>>>" ++ check (runes_of_ascii "// @lengthOf(
 packet i8i8 { u128 o , }
 options { MetaDataX = true;
     BodyLength =""packet"" x_y_z= 007
-?crc //x
-= ""abc"" ;
-    msg_type =
-i16 }")).
-Eval vm_compute in ("<<<M689>>>" ++ check (runes_of_ascii "// @lengthOf(
-packet i8i8 { u128 o , }
-options { MetaDataX  true;
-    BodyLength =""packet"" x_y_z= 007
 crc //x
 = ""abc"" ;
     msg_type =
-i16 }")).
-Eval vm_compute in ("<<<M697>>>" ++ check (runes_of_ascii "// @lengthOf(
-packet i8i8 { u128 o , }
-, { MetaDataX = true;
-    BodyLength =""packet"" x_y_z= 007
-crc //x
-= ""abc"" ;
-    msg_type =
-i16 }")).
-Eval vm_compute in ("<<<M1296>>>" ++ check (runes_of_ascii "packet A {
-    u8 a,
+i16 i16 }")).
+Eval vm_compute in ("<<<M460>>>" ++ check (runes_of_ascii "packet uint8x
+{ match pack
+    as msg_type	{
+    0123456789 :	float
 }
-packet B {
-    u16 b,
-}
-root packet P {
-    u8 K,
-    match K as M {
-        1 : A,
-        1 : B,
-    },
-}
-")).
-Eval vm_compute in ("<<<M1261>>>" ++ check (runes_of_ascii "packet B {
-    u8 a,
-}
-root packet P {
-    u8 K,
-    u64 L @lengthOf(Body),
-    match K as Body {
-        1 : B,
-    },
-}
-")).
-Eval vm_compute in ("<<<M1151>>>" ++ check (runes_of_ascii "MetaData leftPad { chars MetaDataX // c
-, } packet repeatCount { char[ 255 ] uint8x `" ++ [233]%N ++ runes_of_ascii "` , } MetaData pack { As Foo , }")).
-Eval vm_compute in ("<<<M1183>>>" ++ check (runes_of_ascii "MetaData leftPad { chars MetaDataX , } packet repeatCount { char[ 255 ] uint8x `" ++ [233]%N ++ runes_of_ascii "` , } MetaData pack { As // c
-Foo , }")).
-Eval vm_compute in ("<<<M239>>>" ++ check (runes_of_ascii "options { lengthOf =3
-trueish
-// packet A { u8 x, }
-// trailing space 
-=
-    true
-; calculatedFrom =
-007;} 	 ")).
-Eval vm_compute in ("<<<M1269>>>" ++ check (runes_of_ascii "  packet	B
-{
-u8 a , 
-string	s
-	,
-    }
-    root
-	packet P
-
-{ u16
-
-L @lengthOf( B ), B
-    , 
-u8  t ,
-}
-")).
-Eval vm_compute in ("<<<M1604>>>" ++ check (runes_of_ascii "
-
-  packet
-A { 
-match k
-
-as
-n{
-	[ ""a"", ""bb"" ,
-	""c c""
-
 ,
-""d""
-	, ""e""
+}  //	t
+a1
+    { } options {packetx
+    = '\x00'	; u128= ""a	b""  ; }
+")).
+Eval vm_compute in ("<<<M137>>>" ++ check (runes_of_ascii "
+packet u128//x
+{ @calculatedFrom(  ""x y""
+    ) // `tick` ""quote"" 'q'
+@rightPad (  ' ') char[ 42 ]  Header
+    @calculatedFrom( ""abc"" ),  }
 
+")).
+Eval vm_compute in ("<<<M658>>>" ++ check (runes_of_ascii "// @lengthOf(
+ i8i8 { u128 o , }
+options { MetaDataX = true;
+    BodyLength =""packet"" x_y_z= 007
+crc //x
+= ""abc"" ;
+    msg_type =
+i16 }")).
+Eval vm_compute in ("<<<M514>>>" ++ check (runes_of_ascii "packet uint8x
+{ match pack
+    as msg_type	{
+    0123456789 :	float
+}
+,
+} packet //	t
+a1
+    { } options {packetx
+    = '\x00'	;")).
+Eval vm_compute in ("<<<M1407>>>" ++ check (runes_of_ascii "packet
+
+A
+	{
+match
+
+k	as  n 
+{
+	[	""a""
     ,
-	""f"" 
-] :B	2	:  C
+    22 ,
+""c c"" , 
+4
+    ,""e"" ,
+
+    66 
+,  ""g""
+	, 8
+
+] : B 
+2
+	:C
+    },
 
 }
-, }
+
 ")).
-Eval vm_compute in ("<<<M554>>>" ++ check (runes_of_ascii "
-packet packet
+Eval vm_compute in ("<<<M1146>>>" ++ check (runes_of_ascii "MetaData leftPad
+// c
+{ chars MetaDataX , } packet repeatCount { char[ 255 ] uint8x `" ++ [233]%N ++ runes_of_ascii "` , } MetaData pack { As Foo , }")).
+Eval vm_compute in ("<<<M1178>>>" ++ check (runes_of_ascii "MetaData leftPad { chars MetaDataX , } packet repeatCount { char[ 255 ] uint8x `" ++ [233]%N ++ runes_of_ascii "` , } MetaData
+// c
+pack { As Foo , }")).
+Eval vm_compute in ("<<<M1746>>>" ++ check (runes_of_ascii "packet
+	asx
+
+{
+	match
+	u128	as 
+lengthOf
+{
+        //	t
+	// `ti/ck` ""quote"" 'q'
+    255
+
+    : x
+,
+    } ,}
+")).
+Eval vm_compute in ("<<<M949>>>" ++ check (runes_of_ascii "packet A {
+    u16 len @lengthOf(body) `x
+`,
+    u32 crc @calculatedFrom(""CRC32"") `x
+`,
+    string body,
+}")).
+Eval vm_compute in ("<<<M868>>>" ++ check (runes_of_ascii "packet A {
+  match k as n {
+    [""a"", ""bb"", ""c c"", ""d"", ""e"", ""f"", ""g"", ""h"", ""i""] : B
+    2 : C
+  },
+}")).
+Eval vm_compute in ("<<<M932>>>" ++ check (runes_of_ascii "packet A {
+    Inner {
+        u8 x `
+`,
+        Deep {
+            u8 y `
+`,
+        },
+    },
+}")).
+Eval vm_compute in ("<<<M593>>>" ++ check (runes_of_ascii "
+packet
+    asx {match u128 as lengthOf
+{
+//	t
+// `tick` ""quote"" 'q'
+255 255 : x ,
+    } ,	}")).
+Eval vm_compute in ("<<<M639>>>" ++ check (runes_of_ascii "
+packet
     asx {match u128 as lengthOf
 {
 //	t
 // `tick` ""quote"" 'q'
 255 : x ,
+    } ,	"" }")).
+Eval vm_compute in ("<<<M594>>>" ++ check (runes_of_ascii "
+packet
+    asx {match u128 as lengthOf
+{
+//	t
+// `tick` ""quote"" 'q'
+: 255 x ,
     } ,	}")).
-Eval vm_compute in ("<<<M887>>>" ++ check (runes_of_ascii "packet A {
+Eval vm_compute in ("<<<M828>>>" ++ check (runes_of_ascii "packet A {
   match k as n {
-    [1, 22, ""c c"", 4, 5, ""f"", 7, 8, ""i"", 10] : B
+    [""a"", ""bb"", ""c c"", ""d"", ""e"", ""f""] : B,
     2 : C
   },
 }")).
-Eval vm_compute in ("<<<M388>>>" ++ check (runes_of_ascii "root packet SimpleMessage {
-    uint16 MsgType `" ++ [28040; 24687; 31867; 22411]%N ++ runes_of_ascii "`,
-    string JsonBody `Json" ++ [23383; 31526; 20018; 28040; 24687; 20307]%N ++ runes_of_ascii "`,
-}")).
-Eval vm_compute in ("<<<M859>>>" ++ check (runes_of_ascii "packet A {
+Eval vm_compute in ("<<<M866>>>" ++ check (runes_of_ascii "packet A {
   match k as n {
-    [""a"", 22, ""c c"", 4, ""e"", 66, ""g"", 8] : B
+    [1, 22, 007, 4, 5, 66, 7, 8, 9] : B
     2 : C
   },
 }")).
-Eval vm_compute in ("<<<M846>>>" ++ check (runes_of_ascii "packet A {
+Eval vm_compute in ("<<<M1273>>>" ++ check (runes_of_ascii "options {
+    FixedStringPadFromLeft = true;
+}
+root packet P {
+    char[4] z,
+}
+")).
+Eval vm_compute in ("<<<M743>>>" ++ check (runes_of_ascii "int16 zchar[ } `doc` char u16 uint16 true false u8 msg_type """ ++ [233]%N ++ runes_of_ascii "t" ++ [233]%N ++ runes_of_ascii """ ""a\\"" pack")).
+Eval vm_compute in ("<<<M805>>>" ++ check (runes_of_ascii "packet A {
   match k as n {
-    [""a"", 22, ""c c"", 4, ""e"", 66, ""g""] : B
+    [1, ""bb"", 007, ""d""] : B
     2 : C
   },
 }")).
+Eval vm_compute in ("<<<M768>>>" ++ check (runes_of_ascii "char = char[] options char[] ] uint64 metadata match 1 zchar[ int16")).
+Eval vm_compute in ("<<<M1595>>>" ++ check (runes_of_ascii "packet A  { match
+
+k as
+    n
+{
+1
+	:B// c
+, // d
+  }
+    ,
+}
+")).
+Eval vm_compute in ("<<<M1287>>>" ++ check (runes_of_ascii "root packet P {
+    repeat string ss,
+    repeat u16 ns,
+}
+")).
+Eval vm_compute in ("<<<M1093>>>" ++ check (runes_of_ascii "packet A { repeat // a
+ B // b
+ b // c
+ `d` // e
+ , }")).
+Eval vm_compute in ("<<<M1218>>>" ++ check (runes_of_ascii "packet body { i32 f32a `{ , }` , } options {
+// c
+}")).
+Eval vm_compute in ("<<<M755>>>" ++ check (runes_of_ascii "string i8 ) } u8 [ uint32 ] } = uint8 '\x00'")).
+Eval vm_compute in ("<<<M1240>>>" ++ check (runes_of_ascii "root packet P {
+    char c,
+    u8 x,
+}
+")).
+Eval vm_compute in ("<<<M1920>>>" ++ check (runes_of_ascii "// top
+MetaData u {
+    // c2
+}// c3")).
 Eval vm_compute in ("<<<M1414>>>" ++ check (runes_of_ascii "packet A {
-    match k as n {
-        [""a"", 22, ""c c""] : B,
-        2 : C,
-    },
+    u8 x `d" ++ [8203]%N ++ runes_of_ascii "`,// c" ++ [8203]%N ++ runes_of_ascii "
 }")).
-Eval vm_compute in ("<<<M1456>>>" ++ check (runes_of_ascii "  packet
-
-A
-{ @tag(
-	1
-
-) // a
-  @leftPad
-(
-'0'	)// b
-  char[
-
-4	]
-x
-,}
-")).
-Eval vm_compute in ("<<<M811>>>" ++ check (runes_of_ascii "packet A {
-  match k as n {
-    [""a"", ""bb"", 007, ""d""] : B
-    2 : C
-  },
+Eval vm_compute in ("<<<M1023>>>" ++ check (runes_of_ascii "packet A {
+ u8 x `d" ++ [8239]%N ++ runes_of_ascii "`, // c" ++ [8239]%N ++ runes_of_ascii "
 }")).
-Eval vm_compute in ("<<<M454>>>" ++ check (runes_of_ascii "packet uint8x
-{ match pack
-    as msg_type	{
-    0123456789 :	float
+Eval vm_compute in ("<<<M1711>>>" ++ check (runes_of_ascii "// " ++ [128512]%N ++ runes_of_ascii " emoji
+MetaData crc {
 }")).
-Eval vm_compute in ("<<<M1098>>>" ++ check (runes_of_ascii "packet A {
-    match k as n {
-        1 : B,
-        // c
-    },
-}")).
-Eval vm_compute in ("<<<M778>>>" ++ check (runes_of_ascii "packet A {
-  match k as n {
-    [1, 22] : B,
-    2 : C
-  },
-}")).
-Eval vm_compute in ("<<<M930>>>" ++ check (runes_of_ascii "packet A {
-    B b `
-`,
-    B `
-`,
-    repeat B bs `
-`,
-}")).
-Eval vm_compute in ("<<<M159>>>" ++ check (runes_of_ascii "root packet x  { roots @calculatedFrom(""a\""b"" ) , }")).
-Eval vm_compute in ("<<<M1520>>>" ++ check (runes_of_ascii "packet body {
-    i32 f32a `{ , }`,
-}
-
-options {
-}")).
-Eval vm_compute in ("<<<M921>>>" ++ check (runes_of_ascii "MetaData M {
-    u8 x `a
-b`,
-    T t `a
-b`,
-}")).
-Eval vm_compute in ("<<<M1894>>>" ++ check (runes_of_ascii "  root	packet
-
-A{
-
-    u8
-x 
-`
-x`	,
-} ")).
-Eval vm_compute in ("<<<M1092>>>" ++ check (runes_of_ascii "root // a
- packet // b
- A // c
- { }")).
-Eval vm_compute in ("<<<M738>>>" ++ check (runes_of_ascii "\B1ss""~3@|Nr!9$[0mx>ti>t+Fp_cN&")).
-Eval vm_compute in ("<<<M1524>>>" ++ check (runes_of_ascii "root
-
-    packet
-chars {
-}
-")).
-Eval vm_compute in ("<<<M338>>>" ++ check (runes_of_ascii "root packet
-msg_type { }
-")).
-Eval vm_compute in ("<<<M747>>>" ++ check (runes_of_ascii "true int16 u16 { f32a")).
-Eval vm_compute in ("<<<M1061>>>" ++ check (runes_of_ascii "packet A {
-}
-// c x")).
-Eval vm_compute in ("<<<M1012>>>" ++ check (runes_of_ascii "// c" ++ [8232]%N ++ runes_of_ascii "
+Eval vm_compute in ("<<<M770>>>" ++ check (runes_of_ascii "EJYa-@ZpfaJe_ojrLyZC9M")).
+Eval vm_compute in ("<<<M1129>>>" ++ check (runes_of_ascii "
+// c
+MetaData u { }")).
+Eval vm_compute in ("<<<M987>>>" ++ check (runes_of_ascii "// c" ++ [160]%N ++ runes_of_ascii "
 packet A {
 }")).
-Eval vm_compute in ("<<<M984>>>" ++ check (runes_of_ascii "packet A {
-}// c" ++ [160]%N)).
-Eval vm_compute in ("<<<M1682>>>" ++ check (runes_of_ascii "packet x {
-}// c")).
-Eval vm_compute in ("<<<M1715>>>" ++ check (runes_of_ascii "/// triple")).
-Eval vm_compute in ("<<<M157>>>" ++ check (runes_of_ascii "//
-
+Eval vm_compute in ("<<<M1232>>>" ++ check (runes_of_ascii "packet x { } // c
 ")).
+Eval vm_compute in ("<<<M1520>>>" ++ check (runes_of_ascii "packet Packet {
+}")).
+Eval vm_compute in ("<<<M1837>>>" ++ check (runes_of_ascii "
+/// triple")).
+Eval vm_compute in ("<<<M1045>>>" ++ check (runes_of_ascii "// c" ++ [8203]%N)).
